@@ -186,6 +186,16 @@ func (e *Env) Dump(ctx context.Context) (*Dump, error) {
 		for _, n := range ns {
 			acked := append([]uuid.UUID(nil), n.AckedMessageIDs...)
 			sort.Slice(acked, func(i, j int) bool { return uuidLess(acked[i], acked[j]) })
+			// the list is used as a SET (message_id IN ...): a message with two completed deliveries on the
+			// subscription (a dead-letter topic that is the subscription's own topic) is listed twice by
+			// the implementation's join, once by the model - the same snapshot
+			uniq := acked[:0]
+			for i, id := range acked {
+				if i == 0 || id != acked[i-1] {
+					uniq = append(uniq, id)
+				}
+			}
+			acked = uniq
 			d.Snaps = append(d.Snaps, SnapRow{n.ID, n.Name, n.TopicID, e.vt(n.ExpiresAt), sortedMap(n.Labels),
 				e.vt(n.AckedMessagesBefore), acked})
 		}
